@@ -169,3 +169,13 @@ Example ex_writeback_over_larger :
   | _ => ([], [], [])
   end = (ex_img, ex_img, ex_img).
 Proof. vm_compute. reflexivity. Qed.
+
+(* ---- format constants ----
+   The models take their format constants from Gen/Consts.v, which is regenerated from /repo's
+   source on every run; Spec/ConstPins.v (committed, written by bin/mkpins) pins every one of them
+   to the value the specifications give it.  A constant that drifts in the Go source breaks this
+   theorem instead of being silently followed by model and generator. *)
+From Fiano Require Spec.ConstPins.
+Theorem C19_format_constants_pinned : Spec.ConstPins.pinned_c19.
+Proof. exact Spec.ConstPins.pins_c19. Qed.
+Print Assumptions C19_format_constants_pinned.
